@@ -816,6 +816,18 @@ def run_overlapping_reads(ctx, rng, hid):
             rlog.disabled = False
             rlog.setLevel(logging.ERROR)
 
+            # the hypothesis of `concurrent_atomic_writes_never_fail` observed: the temporary names `_atomic_write` takes while the
+            # clients overlap (a stand-in for `TemporaryDirectory` in the storage module records them) are pairwise different
+            import radicale.storage.multifilesystem.base as rbase
+            real_td = rbase.TemporaryDirectory
+            tmp_names = []
+
+            def recording_td(*a, **kw):
+                d = real_td(*a, **kw)
+                tmp_names.append(d.name)
+                return d
+            rbase.TemporaryDirectory = recording_td
+
             def client(k):
                 try:
                     go.wait(10)
@@ -828,6 +840,7 @@ def run_overlapping_reads(ctx, rng, hid):
                 t.start()
             for t in ts:
                 t.join(60)
+            rbase.TemporaryDirectory = real_td
             rlog.removeHandler(tap)
             rlog.setLevel(old_level)
             rlog.disabled = old_disabled
@@ -835,7 +848,11 @@ def run_overlapping_reads(ctx, rng, hid):
             ref = (ref[0], strip_tokens(ref[2]))
             case = {"history": hid, "round": rnd, "clients": n, "request": kind, "storage_options": (variant or {}).get("storage", {}),
                     "statuses": [g[0] if g else None for g in got], "sequential_status": ref[0], "server_errors": errors}
+            case["writes_inside_the_shared_window"] = len(tmp_names)
             ctx.case("overlapping-reads:%s" % kind, sample=case, key=[hid, rnd], nontrivial=True)
+            if len(set(tmp_names)) != len(tmp_names):
+                ctx.violation("two writes inside one shared window used the same temporary name: %s" % sorted(n for n in tmp_names if tmp_names.count(n) > 1)[:2], case)
+                return
             bad = [k for k, g in enumerate(got) if g != ref]
             if bad:
                 g = got[bad[0]]
